@@ -47,7 +47,9 @@ def cases(tier):
     for dim in (1, 2, 3):
         n = BOUNDS[tier][dim]
         for s in itertools.product(range(1, n + 1), repeat=dim):
-            for vs in ("unit", "scalar", "aniso", "array"):
+            for vs in ("unit", "scalar", "aniso", "array", "tuple", "tiny", "near-cubic"):
+                if vs in ("tuple", "tiny", "near-cubic") and (dim == 1 or int(np.prod(s)) > 64):
+                    continue
                 out.append({"shape": list(s), "vs": vs, "tier": tier})
     out.sort(key=lambda c: (int(np.prod(c["shape"])), len(c["shape"]), c["shape"], c["vs"]))
     return out
@@ -64,12 +66,15 @@ def run_case(case, r):
     # "aniso": a list with one dyadic size per axis
     # "array": the voxel sizes are handed over as a float64 ndarray which the caller goes on using
     # (scales it in place right after the grid was built, as in a loop over refinement levels)
-    vs = {"unit": np.ones(dim), "scalar": np.full(dim, 0.5), "aniso": np.array(VS[dim]), "array": np.array(VS[dim])}[case["vs"]]
-    vs_arg = {"unit": 1.0, "scalar": 0.5, "aniso": list(VS[dim]), "array": np.array(VS[dim], dtype=float)}[case["vs"]]
+    # "tuple": per-axis sizes as a tuple; "tiny": the anisotropic sizes x 2^-15 (micro-CT voxels in metres);
+    # "near-cubic": sizes that differ in the 6th digit only -- anisotropy is anisotropy at every scale
+    near = np.array([1.0, 1.0 + 2.0**-18, 1.0 - 2.0**-18][:dim])
+    vs = {"unit": np.ones(dim), "scalar": np.full(dim, 0.5), "aniso": np.array(VS[dim]), "array": np.array(VS[dim]), "tuple": np.array(VS[dim]), "tiny": np.array(VS[dim]) * 2.0**-15, "near-cubic": near}[case["vs"]]
+    vs_arg = {"unit": 1.0, "scalar": 0.5, "aniso": list(VS[dim]), "array": np.array(VS[dim], dtype=float), "tuple": tuple(VS[dim]), "tiny": [v * 2.0**-15 for v in VS[dim]], "near-cubic": near.tolist()}[case["vs"]]
     # start from a non-initial process state: operators of a grid of the SAME shape but the
     # OTHER voxel sizes (and of the transposed shape) have been built and used before, so any
     # state kept between grids (module-level caches keyed too coarsely) shows up
-    for oshape, ovs in ((shape, list(VS[dim]) if case["vs"] not in ("aniso", "array") else 0.5), (shape[::-1], 1.0 if case["vs"] != "unit" else list(VS[dim]))):
+    for oshape, ovs in ((shape, list(VS[dim]) if case["vs"] not in ("aniso", "array", "tuple") else 0.5), (shape[::-1], 1.0 if case["vs"] != "unit" else list(VS[dim]))):
         og = darsia.Grid(oshape, ovs)
         darsia.FVDivergence(og), darsia.FVMass(og, "cells"), darsia.FVMass(og, "faces")
         if og.num_faces:
